@@ -75,8 +75,10 @@ def _inner(P, ks, a, op, f, kk, x, y):
     is_tree = kind in ('BTree', 'TreeSet')
     grp = P['group']
     t, m, kobj = prestate(P, ks, False, kk)
+    fc = keys_mod.CTL['failcls']
     ctx = {'harness': 'cmpfail_step', 'impl': P['impl'], 'kind': kind, 'group': grp, 'op': op,
-           'depth': shapes.depth(P['tpl']) if 'tpl' in P else 1}
+           'depth': shapes.depth(P['tpl']) if 'tpl' in P else 1,
+           'exc': None if fc is CmpError else fc.__mro__[2].__name__, 'f': 0}
     m0 = m.copy()
     keys_mod.reset_counter()
     keys_mod.CTL['failsym'] = f         # symbolic: which comparison of the call raises (beyond the last one = none)
